@@ -8,7 +8,7 @@ from .. import boot  # noqa: F401
 from .. import world as W
 from ..corpus import Session, corpus, corpus_tree, corpus_users, payload_bytes
 from ..runner import sig_of, rearm
-from ..spyfs import Fault
+from ..spyfs import Fault, Bare
 
 PROPERTY = "C13"
 LEVEL = "fault_enumeration"
@@ -34,6 +34,7 @@ EXCS = {
     "fault": lambda: Fault("injected non-OSError"),
     "value": lambda: ValueError("injected ValueError"),
     "timeout": lambda: asyncio.TimeoutError(),
+    "bare": lambda: Bare(),      # reaches the server as aioftp.PathIOError() without a reason (a custom back end raising it itself)
 }
 QUICK_SCRIPTS = ["walk", "mkd_rmd", "stor_pasv", "stor_epsv_after", "appe", "retr_pasv", "retr_rest", "stor_rest",
                  "list", "mlsd", "mlst", "rename", "dele", "two_transfers", "pipelined_fs", "stor_rest_missing"]
@@ -149,11 +150,17 @@ async def execute(net, hyg, plan):
             if s.alive:
                 mon["probe"] = 1
                 before = len(s.outcomes)
-                for st2 in PROBE:
+                reuse = bool(marks) and s.pasv_port is not None and (fired["n"] or 0) % 2 == 0
+                # every other time the passive listener of the failed transfer serves the next ones (no new PASV/EPSV)
+                probe = [st2 for st2 in PROBE if st2 != ["epsv"]] if reuse else PROBE
+                for st2 in probe:
                     if not await s.step(st2):
                         break
                 got = s.outcomes[before:]
                 want = [["257"], ["229"], ["150", "226", "sent"], ["229"], ["150", "226", "eof"], ["221", "EOF"]]
+                if reuse:
+                    want = [x for x in want if x != ["229"]]
+                    mon["probe_reuses_listener"] = 1
                 content_ok = bool(s.downloads) and s.downloads[-1][2] == payload_bytes(1234)
                 if got != want or not content_ok:
                     viol.append({"key": f"probe-failed:{site}", "msg": f"{where}: follow-up on the same session gave {got}"})
@@ -334,7 +341,7 @@ def run_case(case):
 def gen_cases(tier, seed):
     cases = []
     names = QUICK_SCRIPTS if tier == "quick" else [n for n in sorted(corpus()) if n not in ("login_quit", "nologin", "login_pw", "login_bad_pw", "abor_idle", "misc", "flood")]
-    excs = ["eio", "fault", "timeout"] if tier == "quick" else ["eio", "enospc", "eacces", "fault", "value", "timeout"]
+    excs = ["eio", "fault", "timeout", "bare"] if tier == "quick" else ["eio", "enospc", "eacces", "fault", "value", "timeout", "bare"]
     for name in names:
         for i, exc in enumerate(excs):
             cases.append({"kind": "enum_k", "plan": {"script": name, "exc": exc, "seed": seed}})
